@@ -36,6 +36,18 @@ CHECKS["C13"] = dict(level="model_checking", technique="TLA+ Pipeline model (C13
 CHECKS["C19"] = dict(level="exploration", technique="TLA+ ConfigDoc operators (Norm/Foreign/Preserved, RoundTrips, Effective, MustReject) as oracle; TLC enumerates document shapes and all 26 244 flag/file combinations; real save/load and real CLI runs; trace validation by TLC",
     text="TLC-enumerated JSON document shapes filled from an atom pool (escaped/Unicode strings, i64/u64 extremes, decimals) go through the real save_to_tauri_config / from_tauri_config and TLC checks that everything outside plugins.typegen is preserved atom for atom and that the settings read back equal those written; every TLC-enumerated combination of flags and file settings (sampled in quick) is run on the real CLI and the observed effective settings are compared with ConfigDoc!Effective; invalid settings must be rejected before anything is written.",
     note="Documents whose `plugins` is not an object are outside the property's quantifier and not judged. Numbers limited to exactly representable f64/i64/u64. Exact JSON reader = Python json with Decimal.", ref="6 (C19)")
+CHECKS["C03"] = dict(level="exploration", technique="TLA+ Project!Commands / C03_Holds as oracle; TLC enumerates path classes x parsability x attribute spellings x item positions; cases packed into real projects, real CLI, parsed wrappers trace-validated by TLC",
+    text="All 4752 TLC-enumerated discovery cases (12 path classes incl. target/.git and their look-alikes, unparsable files, 11 attribute spellings, top-level / mod / impl, visibility, async) are generated by the real CLI in both modes (quick: every path class x attribute x position x parsability combination); TLC compares the set of invoke names with Project!Commands and demands exactly one wrapper each; plus a project located below a directory called target.",
+    note="cfg_attr-conditional command attributes are outside the case space. Trusted: TS parser, TLC.", ref="6 (C03)")
+CHECKS["C07"] = dict(level="exploration", technique="TLA+ Project!Reachable (least fixpoint over serde types, Result error arm excluded) as oracle; TLC enumerates type graphs and edge contexts; real CLI; declared names trace-validated by TLC",
+    text="All 512 digraphs on three types x root sets and chain/diamond/fan-out shapes with each edge through each of 20 constructor contexts, rooted at every site through 6 root contexts, with serde and non-serde decoys, are generated as real projects in both modes; TLC checks declared type names = Project!Reachable, once each.",
+    note="Quick tier samples 500 of the 3584 three-node cases and covers every (edge context, site) pair; thorough runs all 7184.", ref="6 (C07)")
+CHECKS["C09"] = dict(level="model_checking", technique="TLA+ TopoSort DFS step machine model-checked over every iteration order; acyclic TLC-enumerated graphs generated in Zod mode by fresh processes; Output!DefinedBeforeUse judged by TLC on the parsed module",
+    text="TLC shows that the DFS ordering emits dependencies first for every acyclic graph on <=3 types under every hash iteration order; the acyclic TLC-enumerated graphs (every DAG on 3 nodes, shapes x edge contexts x root sites) are generated in Zod mode and TLC checks on the parsed types module that no `export const` right-hand side eagerly mentions a schema constant defined later (parameter schemas included).",
+    note="Real-binary schedules are sampled (2 / 6 processes per project); order exhaustiveness is in the model.", ref="6 (C09)")
+CHECKS["C02"] = dict(level="exploration", technique="TLA+ Output module-graph operators (Closed, NoDuplicateExports, IndexMatches) as oracle over parsed output of TLC-enumerated projects",
+    text="Every output directory produced for the TLC-enumerated type graphs, for named types at every structural position of every site, for repeated events and a feature project is parsed into module records (imports, declarations, type/value references, lazy references) and TLC checks that every reference resolves in the right declaration space, no export is duplicated and index.ts re-exports exactly the written files.",
+    note="Known finding C02-unprefixed-nested (pinned by unit tests). Built-in TS names are a fixed list.", ref="6 (C02)")
 NOT_YET = {}
 def main():
     props = [json.loads(l) for l in open(os.path.join(VERIF, "properties.jsonl"))]
